@@ -70,7 +70,7 @@ CLAIMS = {
     "C09": (
         "who-passes-the-sentinel rule over all label-partitioning call sites, constructions and label fillers",
         "Decides: every call of a label-partitioning/aggregating utility on something other than model predictions binds missing_label explicitly (literal -1 only on encoder output); "
-        "label fillers concatenated to y are not NaN literals; project models constructed inside strategies receive missing_label; encoder output is never partitioned with the raw sentinel; predict decodes class indices on every path. Equality of outputs under re-encoding is not decided.",
+        "label fillers concatenated to y are not NaN literals; project models constructed inside strategies receive missing_label; encoder output is never partitioned with the raw sentinel; predict decodes class indices on every path; NaN-aware reductions are not applied to raw label arrays; a model re-targeted to internal classes gets the matching sentinel. Equality of outputs under re-encoding is not decided.",
         "Calls on model predictions and pure validators are outside the rule.",
         "DESIGN.md section 3 C09",
     ),
@@ -93,14 +93,14 @@ CLAIMS = {
     "C16": (
         "structural complement/dispatch/symmetry rules on the label predicates and the encoder",
         "Decides: is_labeled is the inversion of is_unlabeled with both arguments forwarded; the index helpers are argwhere of the respective predicate; is_unlabeled has exactly the isnan path (under a float-NaN sentinel test) and the cast-equality path, "
-        "both dominated by the sentinel checks; every return is element-for-element shaped like y (never sized by len(y)); the common dtype of labels and sentinel is built the same way at its three sites; transform/inverse_transform partition by m and ~m with swapped sentinel pairs; every check_array on labels in the encoder accepts empty / non-finite / any-dtype input; every attribute ExtLabelEncoder.fit stores it stores on every returning path. The round trip as values and numpy casting are not decided.",
+        "both dominated by the sentinel checks; every return is element-for-element shaped like y (never sized by len(y)); the common dtype of labels and sentinel is built the same way at its three sites; transform/inverse_transform partition by m and ~m with swapped sentinel pairs; every check_array on labels in the encoder accepts empty / non-finite / any-dtype input; every attribute ExtLabelEncoder.fit stores it stores on every returning path. The encoder never writes into its input and looks labels up exactly; argwhere enumerations are not re-ordered. The round trip as values and numpy casting are not decided.",
         "numpy comparison/casting semantics are trusted.",
         "DESIGN.md section 3 C16",
     ),
     "C17": (
         "path-sensitive must-write analysis with value-set facts; dominance of the zeroing store; structural rules on majority_vote",
         "Decides: ext_confusion_matrix stores its output slice on every feasible path of the per-annotator loop (value set of `normalize` from the validating test); "
-        "compute_vote_vectors zeroes the bincount weights at the missing-label mask and at NaN confidences (and at nothing else: infinite weights stay) by a dominating store and pairs positions and weights in C order; the missing mask itself (is_unlabeled) dispatches NaN test vs. equality on the sentinel; the utilities never write into their arguments; the rows of annotator a are filtered by the mask of its own column; majority_vote fills with the sentinel, writes only under the "
+        "compute_vote_vectors zeroes the bincount weights at the missing-label mask and at NaN confidences (and at nothing else: infinite weights stay) by a dominating store and pairs positions and weights in C order; the missing mask itself (is_unlabeled) dispatches NaN test vs. equality on the sentinel; each normalisation mode of ext_confusion_matrix divides along its own axis on every path and the counted matrix is never transposed; labels are encoded by an exact lookup; the utilities never write into their arguments; the rows of annotator a are filtered by the mask of its own column; majority_vote fills with the sentinel, writes only under the "
         "has-a-label mask and decodes rand_argmax over the vote matrix. Equality with the counting specification as numbers is not decided.",
         "np.bincount and sklearn's confusion_matrix are trusted to count.",
         "DESIGN.md section 3 C17",
@@ -126,7 +126,7 @@ CLAIMS = {
     "C11": (
         "source -> sanitiser -> sink path analysis (class index must be decoded), must-normalise path analysis of predict_proba, sibling-statement rules",
         "Decides: in every predict a class index selected over costs/probabilities is decoded (inverse_transform / classes_[.]) before it is returned on every path; every predict_proba return path passed a row normaliser "
-        "(own row sum with keepdims, softmax, uniform constant, tiled counts) or delegates; the zero-row fallback exists; the cost matrix is permuted on both axes by the same argsort; estimator columns are re-mapped by searchsorted; vote counts are built from weights that are zeroed at missing labels and at NaN confidences; every ensemble member is fitted knowing all classes on every path. "
+        "(own row sum with keepdims, softmax, uniform constant, tiled counts) or delegates; the zero-row fallback exists; the cost matrix is permuted on both axes by the same argsort; estimator columns are re-mapped by searchsorted; vote counts are built from weights that are zeroed at missing labels and at NaN confidences; every ensemble member is fitted knowing all classes on every path; the wrapped estimator's probabilities are handed on only under the NaN check, `classes` reaches every partial_fit, cold-start frequencies are float. "
         "Finiteness, non-negativity and sums as numbers are not decided.",
         "The wrapped estimator's predict returns labels and its predict_proba is row-normalised.",
         "DESIGN.md section 3 C11",
@@ -149,7 +149,7 @@ CLAIMS = {
     "C19": (
         "delegation-name agreement, co-assignment groups via must/may attribute-store path analysis, copy discipline, sibling diff",
         "Decides: predict/predict_proba/predict_freq delegate to the method of their own name on every path; the current and base training triples are stored all-or-none on every path; base state is always copied; "
-        "the three predict* siblings are identical up to the delegated name with the NaN guard dominating the precomputed prediction; the kernel comes from the wrapped classifier's metric; the twin classifier is a clone (or rebuilt with every constructor parameter); None-guards test the value they pass; the unique-sample selector works on index values; the emulated refit forwards indices, labels and weights of the stored group; the package's classifiers refit history-free (no constructor parameter written, no fitted attribute read before it is stored, stores on every path - shared with C13). Equality with a retrained reference is not decided.",
+        "the three predict* siblings are identical up to the delegated name with the NaN guard dominating the precomputed prediction; the kernel comes from the wrapped classifier's metric; the twin classifier is a clone (or rebuilt with every constructor parameter); None-guards test the value they pass; the unique-sample selector works on index values; the emulated refit forwards indices, labels and weights of the stored group; the package's classifiers refit history-free (no constructor parameter written, no fitted attribute read before it is stored, stores on every path - shared with C13); sample_weight accepted by fit / partial_fit is read, fit and partial_fit hand the same data to shared helpers, the vote counter copies the weights. Equality with a retrained reference is not decided.",
         "-",
         "DESIGN.md section 3 C19",
     ),
